@@ -27,7 +27,7 @@ from ..tlc import MachineryError, run_tlc
 from ..traces import validate
 
 OBSERVERS = ["FullText", "Units", "UnitDeep", "Images", "ImageBytes", "Tables", "Metadata", "ToJson"]
-RICH_FORMATS = ["docx", "odt", "html", "mhtml", "epub", "rtf", "pptx", "odp", "odg", "xlsx", "ods", "pdf",
+RICH_FORMATS = ["docx", "odt", "html", "mhtml", "epub", "rtf", "pptx", "odp", "odg", "xlsx", "ods", "xls", "odf", "pdf",
                 "txt", "md", "csv", "tsv", "json"]
 SKIP_FIXTURE_PARTS = ("password", "protected", "encrypted")
 
@@ -132,6 +132,29 @@ def _one_digest(d):
         return d["id"], f"EXC:{type(e).__name__}"
 
 
+def _purity_job(doc):
+    """Damaged variants of one document: whatever the extractor does (results or an error), the caller's
+    buffer content must be what it was."""
+    out = []
+    try:
+        fn, data, name = _load(doc)
+    except Exception as e:
+        return {"exc": f"{type(e).__name__}: {e}"[:200]}
+    n = len(data)
+    variants = [("cut50", data[: n // 2]), ("cut90", data[: n * 9 // 10]), ("cut-22", data[: max(0, n - 22)]),
+                ("cut-1", data[: n - 1]), ("zero-tail", data[: n * 3 // 4] + b"\0" * (n - n * 3 // 4)),
+                ("flip-mid", data[: n // 2] + bytes([data[n // 2] ^ 0xFF]) + data[n // 2 + 1:] if n > 2 else data)]
+    for tag, blob in variants:
+        buf = io.BytesIO(blob)
+        try:
+            for _ in fn(buf, name):
+                pass
+        except Exception:
+            pass
+        out.append((tag, buf.getvalue() == blob))
+    return {"purity": out}
+
+
 def _fresh_digests(docs_file, out_file, mode="seq"):
     """mode seq: all documents one after the other in THIS process, in an order derived from PYTHONHASHSEED
     (0: as listed, 1: reversed, other: shuffled) -- history-dependent state shows up as a digest change.
@@ -224,6 +247,10 @@ def run(ctx):
     with ProcessPoolExecutor(16) as ex:
         results = list(ex.map(_history_job, jobs))
 
+    # ---- input purity on damaged variants (truncations, zeroed tail, flipped byte)
+    with ProcessPoolExecutor(16) as ex:
+        purity = list(ex.map(_purity_job, docs))
+
     # ---- fresh processes with different hash seeds
     docs_file = ctx.scratch / "docs.json"
     docs_file.write_text(json.dumps([{k: (vv if k != "data" else None) for k, vv in d.items() if k != "data"}
@@ -273,6 +300,10 @@ def run(ctx):
             traces.append({"id": f"{d['id']}#{n}", "hdr": {"type": d["type"], "d0": 0}, "ev": tev, "hist": list(h)})
             if h:
                 ev.nontrivial((d["id"], h))
+    for d, pr in zip(docs, purity):
+        if "purity" in pr:
+            traces.append({"id": f"{d['id']}#damaged", "hdr": {"type": d["type"], "d0": 0}, "hist": [t for t, _ in pr["purity"]],
+                           "ev": [{"a": "Input", "same": bool(same)} for _, same in pr["purity"]]})
     br = validate("ResultTrace", "SPECIFICATION TraceSpec\nCONSTRAINT TraceAccept\n", traces,
                   scratch=ctx.scratch, parallel=12, min_chunk=300)
     ev.tlc_counts("ResultTrace: recorded histories validated", br.distinct, br.states, br.wall_s)
